@@ -52,6 +52,12 @@ def closure_allocs(fx, body, site):
                     if cc.callee.endswith('exchange_malloc'):
                         v = q.const_val(q.arg_terms(cc)[0])
                         tot += v if isinstance(v, int) else 128
+                # capacity reserved per element (Vec::with_capacity(K), vec![x; K], reserve(K) ...)
+                for s2 in panics.inventory(fx, [cb]):
+                    if s2.kind.startswith('alloc:'):
+                        rng = s2.detail.get('size_range')
+                        esz = s2.detail.get('elem_size') or fallback_elem_size(fx, s2) or 128
+                        tot += rng[1] * esz if rng is not None else CAP + 1
     return tot
 
 
@@ -73,7 +79,7 @@ def run(ctx):
         '/ collect) must sit in loops that make progress on the input or are bounded. The sum of the bounded-constant sinks outside '
         'loops is reported. Not decided: the exact constant, allocator overhead, flate2\'s internal buffers.')
     inv = [s for s in panics.inventory(fx, load) if s.kind.startswith('alloc:')]
-    ctx.floor('allocation sinks in the LOAD cone', len(inv), 18)
+    ctx.floor('allocation sinks in the LOAD cone', len(inv), 12)
     total_const = 0
     counts = {}
     for s in inv:
@@ -118,7 +124,9 @@ def run(ctx):
                     total_const += bytes_
             else:
                 verdict = 'declared-only'
-                why = 'size %s (range %s) x %d bytes is controlled by a declared file field with no cap' % (show(st)[:70] if st else '?', rng, esz)
+                per = closure_allocs(fx, b, s)
+                why = 'size %s (range %s) x %d bytes%s is controlled by a declared file field with no cap (limit %d bytes)' % (
+                    show(st)[:70] if st else '?', rng, esz, (' + %d bytes allocated per element by the filling closure' % per) if per else '', CAP)
         # in-place growth of persistent state (resize/reserve on a location rooted at a parameter) happens once per call:
         # multiply by the trip bounds of the loops that enclose the call chain from read_aseprite
         if verdict == 'bounded-constant' and callee.split('::')[-1] in ('resize', 'resize_with', 'reserve', 'reserve_exact'):
